@@ -88,6 +88,37 @@ def statement_of(node, par):
     return cur
 
 
+LONG_LIVED_CLASSES = ("Registry", "Rules")
+
+
+def long_lived_writes(repo, subdir="norminette"):
+    """one Registry / Rules object serves every file of a run: any attribute of `self` that a
+    method other than __init__ / __new__ assigns or mutates is state shared between files"""
+    out = []
+    for rel, tree in iter_modules(repo, subdir):
+        for cls in tree.body:
+            if not (isinstance(cls, ast.ClassDef) and cls.name in LONG_LIVED_CLASSES):
+                continue
+            for fn in cls.body:
+                if not isinstance(fn, ast.FunctionDef) or fn.name in ("__init__", "__new__"):
+                    continue
+                for x in ast.walk(fn):
+                    if isinstance(x, ast.Attribute) and isinstance(x.ctx, (ast.Store, ast.Del)) \
+                            and isinstance(x.value, ast.Name) and x.value.id == "self":
+                        out.append({"where": f"{rel}:{cls.name}.{fn.name}", "what": f"self.{x.attr} assigned"})
+                    if isinstance(x, ast.Call) and isinstance(x.func, ast.Attribute) and \
+                            x.func.attr in ("append", "remove", "extend", "pop", "insert", "clear", "sort", "update",
+                                            "add", "setdefault") and isinstance(x.func.value, ast.Attribute) and \
+                            isinstance(x.func.value.value, ast.Name) and x.func.value.value.id == "self":
+                        out.append({"where": f"{rel}:{cls.name}.{fn.name}",
+                                    "what": f"self.{x.func.value.attr}.{x.func.attr}(...)"})
+                    if isinstance(x, ast.Subscript) and isinstance(x.ctx, (ast.Store, ast.Del)) and \
+                            isinstance(x.value, ast.Attribute) and isinstance(x.value.value, ast.Name) and \
+                            x.value.value.id == "self":
+                        out.append({"where": f"{rel}:{cls.name}.{fn.name}", "what": f"self.{x.value.attr}[...] assigned"})
+    return out
+
+
 def global_writes(repo, subdir="norminette"):
     """statements that can write state outliving a Context: module-level names assigned in
     functions (global), class attributes (cls.x = / ClassName.x =), sys.* / os.environ,
